@@ -101,7 +101,13 @@ class Number(Operand):
     )
 
     def compile(self):
-        return eval(self.name.capitalize())
+        name = self.name.upper()
+        if name in ('TRUE', 'FALSE'):
+            return name == 'TRUE'
+        try:
+            return int(name)
+        except ValueError:
+            return float(name)
 
 
 _re_ref = r'(?P<ref>[[:alpha:]_\\]+[[:alnum:]\.\_\\]*)'
